@@ -409,12 +409,12 @@ class ContractMixin:
         # nested def: late-binding closure over the *current* enclosing environment
         if any(isinstance(n, (ast.Yield, ast.YieldFrom)) for n in ast.walk(fnode)):
             raise Unsupported("nested generator function", node)
-        outer = dict(st.env)
+        outer = dict(getattr(r, "env", None) or st.env)
         names = [a.arg for a in fnode.args.args]
         written = {n.id for n in ast.walk(fnode) if isinstance(n, ast.Name) and isinstance(n.ctx, ast.Store)}
         nonlocal_names = {n for s_ in ast.walk(fnode) if isinstance(s_, ast.Nonlocal) for n in s_.names}
         saved_lf = self.local_funcs
-        for v, s in self.inline_call(fnode, self.file, args, kw, st, node, qual=f"{self.cur_qual}.<locals>.{fnode.name}", closure_env=outer):
+        for v, s in self.inline_call(fnode, getattr(r, "file", None) or self.file, args, kw, st, node, qual=f"{getattr(r, 'qual', None) or self.cur_qual}.<locals>.{fnode.name}", closure_env=outer):
             yield v, s
         self.local_funcs = saved_lf
 
